@@ -52,7 +52,8 @@ CONSTANTS NSplits, NRec, NOps,
           MaxRead,      \* largest batch the reader returns
           WithEOI,      \* the reader reports end of input after the last record
           NKeys,        \* keys 1..NKeys; key k is owned by operator ((k-1) % NOps) + 1
-          KeyCode,      \* key of record (sp, idx) = digit (sp-1)*NRec + idx-1 of KeyCode in base NKeys, + 1
+          KeyCode,      \* key of record (sp, idx) = digit ((sp-1)*NRec + idx-1) % KeyDigits of KeyCode in base NKeys, + 1
+          KeyDigits,
           MaxLen
 
 VARIABLES cursor, order, cuts, stream,                       \* ghost / observable
@@ -82,7 +83,7 @@ Bar(n)      == [t |-> "b", a |-> n, b |-> 0]
 Wm(k)       == [t |-> "w", a |-> k, b |-> 0]
 RECURSIVE Pow(_, _)
 Pow(b, e)   == IF e = 0 THEN 1 ELSE b * Pow(b, e - 1)
-KeyAt(sp, i) == ((KeyCode \div Pow(NKeys, (sp - 1) * NRec + i - 1)) % NKeys) + 1
+KeyAt(sp, i) == ((KeyCode \div Pow(NKeys, ((sp - 1) * NRec + i - 1) % KeyDigits)) % NKeys) + 1
 KeyTab      == [sp \in 1..NSplits |-> [i \in 1..NRec |-> KeyAt(sp, i)]]
 Key(r)      == KeyTab[r.a][r.b]
 Owner(r)    == ((Key(r) - 1) % NOps) + 1
